@@ -57,9 +57,9 @@ def parseFlags (s : String) : Option (List Bool) :=
 def parseStep (ws : List String) : Option Xdist.Sys.Step :=
   match ws with
   | ["main", k] => k.toNat?.map (fun k => .main k .none)
-  | "main" :: k :: "collect" :: g :: errs => do
-    let k ← k.toNat?; let g ← parseBool g; let es ← parseErrs errs
-    pure (.main k (.collect es g))
+  | "main" :: k :: "collect" :: g :: i :: sf :: errs => do
+    let k ← k.toNat?; let g ← parseBool g; let i ← parseBool i; let es ← parseErrs errs
+    pure (.main k (.collect es g i (Ctl.optStr sf)))
   | ["main", k, "reports", fs, sf, ss, ex] => do
     let k ← k.toNat?; let fs ← parseFlags fs; let ex ← parseBool ex
     pure (.main k (.reports fs (Ctl.optStr sf) (Ctl.optStr ss) ex))
